@@ -174,6 +174,48 @@ def e2e_part(chk, rng, binp):
         stack.close()
 
 
+def late_notify(chk, binp):
+    """a schedule, not an input: the provision actor answers slowly, so that reporting key_latched after a notify takes the poll
+    loop past its interval; the loop must go on polling (H3 inject point slows the actor; `notify` is what a local /provision
+    query with the notify header triggers)"""
+    import keeper
+    stack = e2e.Stack(binp, log_level="Error")
+    try:
+        kp = keeper.Keeper(None, sd=stack.sd, attach=stack, interval_ms=30)
+        doc = {"version": "1.0", "secureChannelState": "Wireserver", "keyGuid": None}
+        stt = kp.step({"status": {"kind": "doc", "doc": doc}, "acquire": {"kind": "key", "guid": "g-1", "key": "ab" * 32}, "attest": {"kind": "ok"}}, kick=True)
+        if stt is None or "haskey=1" not in stt:
+            chk.broken.append({"kind": "harness", "name": "late-notify stage", "why": "key not latched: %r" % stt})
+            return
+        with kp.lock:
+            kp.release += [{"status": {"kind": "doc", "doc": dict(doc, keyGuid="g-1")}}] * 100000
+            kp.lock.notify_all()
+        stack.ctl("phook 40")
+        t0 = time.time()
+        n = 0
+        while time.time() - t0 < 1.5:
+            stack.ctl("notify")
+            n += 1
+            time.sleep(0.003)
+        chk.count("late_notifies", n)
+        stack.ctl("khook off")
+        s0 = kp.served
+        time.sleep(0.6)
+        polls = kp.served - s0
+        pan = [p for p in stack.panics() if "key_keeper" in p or "subtract" in p]
+        chk.case(nontrivial_key=("late-notify", n > 0))
+        d = {"schedule": "key latched, poll interval 30 ms, provision actor slowed by 40 ms per message, %d notifies" % n}
+        if pan:
+            chk.violation("the key keeper task panicked when a notify was handled after the poll interval had run out", d,
+                          expected="the loop keeps polling", observed=pan[0], finding_key="late-notify-underflow")
+        elif polls == 0:
+            chk.violation("the key keeper stopped polling after a notify was handled late", d, expected="polls continue", observed="0 polls in 0.6 s",
+                          finding_key="late-notify-underflow")
+        kp.close()
+    finally:
+        stack.close()
+
+
 def run(chk):
     if not e2e.in_netns():
         e2e.reexec_in_netns()
@@ -188,6 +230,7 @@ def run(chk):
     e2e.setup_net()
     function_level(chk, rng, binp)
     e2e_part(chk, rng, binp)
+    late_notify(chk, binp)
     chk.coverage["rule"] = ("function level: texts sized around the 4096/1024 offsets with 2/3/4-byte scalars straddling them through the real "
                             "write_event (read back from the event files), get_module_status, and utf-16 bodies of even/odd length through "
                             "read_response_body; e2e: header values with bytes >= 0x80 (valid, truncated and invalid UTF-8), callers with long "
